@@ -59,11 +59,20 @@ public:
 	int operator++() { return atomicInc(&n); }
 	int operator--() { return atomicDec(&n); }
 #endif
+#ifdef ASL_VERIF
+	// same readers with a schedule point in front, so a scheduler can interleave check-then-act sequences
+	operator int() const { ASL_VERIF_POINT(ASL_VP_ATOMIC_READ, &n); return n; }
+	bool operator==(int m) const { ASL_VERIF_POINT(ASL_VP_ATOMIC_READ, &n); return n == m; }
+	bool operator<(int m) const { ASL_VERIF_POINT(ASL_VP_ATOMIC_READ, &n); return n < m; }
+	bool operator>(int m) const { ASL_VERIF_POINT(ASL_VP_ATOMIC_READ, &n); return n > m; }
+	bool operator<=(int m) const { ASL_VERIF_POINT(ASL_VP_ATOMIC_READ, &n); return n <= m; }
+#else
 	operator int() const { return n; }
 	bool operator==(int m) const { return n == m; }
 	bool operator<(int m) const { return n < m; }
 	bool operator>(int m) const { return n > m; }
 	bool operator<=(int m) const { return n <= m; }
+#endif
 };
 
 }
